@@ -443,6 +443,37 @@ def sym_paths(fi, limit=64):
                 del env[old]
             env[k] = v
             yield from run(rest, env, conds)
+        elif isinstance(st, ast.Assign) and len(st.targets) == 1 and isinstance(st.targets[0], ast.Tuple) \
+                and all(isinstance(t, (ast.Name, ast.Attribute, ast.Subscript)) for t in st.targets[0].elts):
+            # a, b = E : the elements of E (of a tuple display directly), evaluated before any target is bound
+            if isinstance(st.value, ast.Tuple) and len(st.value.elts) == len(st.targets[0].elts):
+                vals = [ev(e_, env) for e_ in st.value.elts]
+            else:
+                whole = ev(st.value, env)
+                vals = ["(%s)[%d]" % (whole, i) for i in range(len(st.targets[0].elts))]
+            env = dict(env)
+            for t, v in zip(st.targets[0].elts, vals):
+                k = ast.unparse(t)
+                for old in [x for x in env if x.startswith(k + ".") or x.startswith(k + "[")]:
+                    del env[old]
+                env[k] = ast.unparse(ast.parse(v, mode="eval").body)
+            yield from run(rest, env, conds)
+        elif isinstance(st, ast.Assign) and len(st.targets) > 1 and all(isinstance(t, (ast.Name, ast.Attribute, ast.Subscript)) for t in st.targets):
+            v = ev(st.value, env)
+            env = dict(env)
+            for t in st.targets:
+                env[ast.unparse(t)] = v
+            yield from run(rest, env, conds)
+        elif isinstance(st, ast.AugAssign) and isinstance(st.target, (ast.Name, ast.Attribute, ast.Subscript)):
+            k = ast.unparse(st.target)
+            cur = env.get(k, k)
+            sym = {ast.Add: "+", ast.Sub: "-", ast.Mult: "*", ast.BitOr: "|", ast.BitAnd: "&", ast.LShift: "<<", ast.RShift: ">>", ast.FloorDiv: "//", ast.Mod: "%"}.get(type(st.op))
+            if sym is None:
+                raise Unsupported("AugAssign")
+            v = ast.unparse(ast.parse("(%s) %s (%s)" % (cur, sym, ev(st.value, env)), mode="eval").body)
+            env = dict(env)
+            env[k] = v
+            yield from run(rest, env, conds)
         elif isinstance(st, ast.AnnAssign) and st.value is not None and isinstance(st.target, ast.Name):
             env = dict(env)
             env[st.target.id] = ev(st.value, env)
@@ -513,6 +544,7 @@ def sym_expr(fi, expr, at, depth=6, allow_calls=(), keep=(), trace=None):
     du = defuse_of(fi)
     cfg = du.cfg
     at_id = at.id if hasattr(at, "id") else at
+    call_ok = allow_calls if callable(allow_calls) else (lambda t: t in allow_calls)
 
     def attr_stores():
         out = []
@@ -577,7 +609,7 @@ def sym_expr(fi, expr, at, depth=6, allow_calls=(), keep=(), trace=None):
                 # (a list / dict / set display is an object that is mutated later, not a value)
                 if not any(isinstance(x, (ast.Await, ast.Yield, ast.YieldFrom, ast.NamedExpr, ast.Lambda, ast.List, ast.Dict, ast.Set, ast.ListComp, ast.DictComp,
                                           ast.SetComp, ast.GeneratorExp)) or
-                           (isinstance(x, ast.Call) and norm(x.func) not in allow_calls) for x in ast.walk(v)) \
+                           (isinstance(x, ast.Call) and not call_ok(norm(x.func))) for x in ast.walk(v)) \
                         and isinstance(v, ast.expr) and not clobbered(defs[0][0], v):
                     if trace is not None:
                         trace[e.id] = defs[0][0]
